@@ -126,6 +126,24 @@ func c09Exec(in Fields) Fields {
 	// from the server, the others as free goroutines
 	var wg sync.WaitGroup
 	start := make(chan struct{})
+	// an observer goroutine keeps asking the client for its status (Conn.String, Connected, Me):
+	// looking at a client must never disturb what it sends
+	obsStop, obsDone := make(chan struct{}), make(chan struct{})
+	go func() {
+		defer close(obsDone)
+		for {
+			select {
+			case <-obsStop:
+				return
+			default:
+				_ = ws.Conn.String()
+				_ = ws.Conn.Connected()
+				_ = ws.Conn.Me()
+				time.Sleep(100 * time.Microsecond)
+			}
+		}
+	}()
+	defer func() { close(obsStop); <-obsDone }()
 	w := ws.Call(func() {
 		for s := 0; s < ns; s++ {
 			ls := issued[s]
